@@ -488,6 +488,9 @@ def run_check(prop, tier, verif_seed, workers=None, runs=None, budget_s=None):
             continue
         reported.append({"invariant": inv, "replay": path, "detail": item2.get("detail"), "runs": len(lst)})
 
+    if by_inv and os.environ.get("VERIF_VERBOSE"):
+        for (inv_, tagkey_), lst_ in sorted(by_inv.items()):
+            print(f"  group {inv_} {tagkey_} runs={len(lst_)}", file=sys.stderr)
     if reported_nd is not None:
         reported.append(reported_nd)
     if reported and exit_code in (0, 1):
